@@ -9,6 +9,9 @@ import Fir.Model.ProtoGeom
 import Fir.Model.ProtoThreads
 import Fir.Model.ProtoColor
 import Fir.Model.ProtoFit
+import Fir.Model.ProtoResize
+import Fir.Model.ProtoOracles
+import Fir.Model.ProtoCoeffs
 open Fir
 
 def handleLine (line : String) : String :=
@@ -35,6 +38,8 @@ def handleLine (line : String) : String :=
     | "cmap" => handleCMap fs
     | "cmap-reject" => handleCMapReject fs
     | "fit" => handleFit fs
+    | "resize" => handleResizeChecked fs
+    | "coeffs" => handleCoeffs fs
     | "ping" => "OK pong"
     | _ => "BAD-REQUEST unknown command " ++ cmd
 
